@@ -1023,6 +1023,17 @@ class Interp:
             if isinstance(o, (list, tuple)):
                 if all(x is None or isinstance(x, int) for x in (lo, hi, st)):
                     return o[lo:hi:st]
+                if (st is None or isinstance(st, int)) and len(o) <= 64 and not any(isinstance(e, _Chunk) for e in o):
+                    # a symbolic bound on a short concrete-length list: settle it by case distinction (Python clamps to 0..len)
+                    def settle(b):
+                        if b is None or isinstance(b, int):
+                            return b
+                        n = len(o)
+                        for v in range(-n, n + 1):
+                            if ctx.decide(zint(b) == v):
+                                return v
+                        return n if ctx.decide(zint(b) > n) else -n - 1
+                    return o[settle(lo):settle(hi):st]
                 raise Unsupported("list slice with symbolic bounds")
             if isinstance(o, self.models.LazySeq):
                 return o.slice(self, lo, hi)
